@@ -787,6 +787,25 @@ class IRContext:
                         v = cast_val
             elif target_enum is not None and current_enum is None:
                 v.type = ir.TensorType(target_enum)
+            if any(v is other for other in self.builder.outputs):
+                # A result leaf that is the same value as an earlier leaf needs a
+                # value of its own: otherwise two model outputs share one name
+                # and cannot be given distinct user-supplied names.
+                alias = ir.Value(
+                    name=self.fresh_name("output_alias"),
+                    type=v.type,
+                    shape=v.shape,
+                )
+                self.add_node(
+                    ir.Node(
+                        op_type="Identity",
+                        domain="",
+                        inputs=[v],
+                        outputs=[alias],
+                        name=self.fresh_name("Identity"),
+                    )
+                )
+                v = alias
             self.builder.outputs.append(v)
 
     # Convenience: make sure the model declares an opset import for a domain
